@@ -34,6 +34,15 @@ def run(ctx, run):
 
 
 # --------------------------------------------------------------------------
+    from .. import sweep, fieldinv
+    inv = fieldinv.Invariants(ctx, [
+        dict(rec="PROXY_CLNT_s", field="dev_idx", lo=0, hi=3, why="index into proxy.dev[SRV_MAX_DEVICES]"),
+        dict(rec="global:proxy", field="dev_count", lo=0, hi=4, why="number of used entries of proxy.dev[SRV_MAX_DEVICES]")])
+    if inv.missing:
+        raise AnalysisBroken("declared daemon invariants on vanished fields: %s" % inv.missing)
+    inv.install()
+    inv.verify(run)
+    sweep.run(ctx, run, [UNIT, "src/proxy-msg.c"], {}, 70)
 
 def _switch_on(f, field_member):
     for bid, b in f.blocks.items():
